@@ -61,6 +61,50 @@ static Built build(Rng& r, GenCfg cfg, bool vec_image, bool mat_image = false) {
   return b;
 }
 
+
+// a function with MUTABLE constants (ExprConstant::new_mutable: the value lives in a Domain owned by the caller and may change
+// after the function, its simplified form or its derivative have been built).  The constants are set to `v0` (often 0 or 1,
+// the values that rewriting rules treat specially) while the library works, then changed: what was derived must follow.
+struct Mut { Domain* t; Domain* tv; Mut() : t(0), tv(0) {} };
+static Built build_mutable(Rng& r, Mut& mu) {
+  Built b; GenCfg cfg; cfg.differentiable = true; cfg.allow_vec = false; cfg.allow_apply = false; cfg.max_depth = r.range(1, 2);
+  ExprGen g(r, cfg);
+  int ns = r.range(1, 3); b.args = new Array<const ExprSymbol>(ns); b.nvar = 0; const ExprSymbol* vecsym = 0;
+  for (int i = 0; i < ns; i++) {
+    bool vec = (i == ns - 1) && r.coin(35);
+    const ExprSymbol& s = ExprSymbol::new_(("x" + to_string(i)).c_str(), vec ? Dim::col_vec(2) : Dim::scalar());
+    b.args->set_ref(i, s); b.nvar += s.dim.size(); if (vec) vecsym = &s; else g.syms.push_back(&s);
+  }
+  if (g.syms.empty()) { const ExprSymbol& s = ExprSymbol::new_("xs", Dim::scalar()); Array<const ExprSymbol>* a2 = new Array<const ExprSymbol>(ns + 1); for (int i = 0; i < ns; i++) a2->set_ref(i, (*b.args)[i]); a2->set_ref(ns, s); b.args = a2; g.syms.push_back(&s); b.nvar++; }
+  static const double V0[] = {0.0, 0.0, 1.0, -1.0, 2.0, 0.5};
+  mu.t = new Domain(Dim::scalar()); mu.t->i() = Interval(V0[r.below(6)]);
+  mu.tv = new Domain(Dim::col_vec(2)); mu.tv->v()[0] = Interval(V0[r.below(6)]); mu.tv->v()[1] = Interval(V0[r.below(6)]);
+  const ExprNode& t = ExprConstant::new_mutable(*mu.t);
+  const ExprNode& tv = ExprConstant::new_mutable(*mu.tv);
+  int n = r.range(2, 3);
+  auto colvec = [&](int k) -> const ExprNode& { Array<const ExprNode> c(k); for (int i = 0; i < k; i++) c.set_ref(i, g.gen(1, 1, cfg.max_depth)); return ExprVector::new_col(c); };
+  const ExprNode* e;
+  switch (r.below(9)) {
+    case 0: e = &(t * colvec(n) + colvec(n)); b.rows = n; b.cols = 1; break;
+    case 1: e = &(t * g.gen(1, 1, 2) + g.gen(1, 1, 2)); b.rows = b.cols = 1; break;
+    case 2: e = &(g.gen(1, 1, 2) * t + sqr(t) * g.gen(1, 1, 1)); b.rows = b.cols = 1; break;
+    case 3: e = &(transpose(tv) * colvec(2) + g.gen(1, 1, 1)); b.rows = b.cols = 1; break;
+    case 4: e = &(g.gen(1, 1, 1) * tv + colvec(2)); b.rows = 2; b.cols = 1; break;
+    case 5: if (vecsym) { e = &(t * *vecsym + colvec(2)); b.rows = 2; b.cols = 1; break; }   // falls through
+    case 6: e = &((t + g.gen(1, 1, 1)) * (g.gen(1, 1, 1) - t)); b.rows = b.cols = 1; break;
+    case 7: e = &(pow(g.gen(1, 1, 1), 2) * t - t * g.gen(1, 1, 2) + t); b.rows = b.cols = 1; break;
+    default: e = &(t * (t * colvec(n)) - colvec(n) * t); b.rows = n; b.cols = 1; break;
+  }
+  b.f = new Function(*b.args, *e, "f");
+  b.dag = "";      // (dumped by the caller AFTER the constants have been changed)
+  return b;
+}
+static void change(Rng& r, Mut& mu) {
+  static const double V1[] = {3.0, -2.0, 0.5, 1.5, 0.0, 1.0, -0.25};
+  mu.t->i() = Interval(V1[r.below(4)]);            // (never 0 or 1 after the change)
+  mu.tv->v()[0] = Interval(V1[r.below(7)]); mu.tv->v()[1] = Interval(V1[r.below(4)]);
+}
+
 // a function over vector / matrix symbols built by the symbolic linear algebra generator
 static Built build_linalg(Rng& r, bool outer = true) {
   Built b; int n = r.range(2, 3); LinAlgGen g(r, n); g.outer = outer;
@@ -175,6 +219,16 @@ int main(int argc, char** argv) {
             }
           }
         }
+      } else if (wl == "c12" && r.coin(12)) {
+        // mutable constants: differentiate while they hold special values, change them, then compare
+        Mut mu; Built b = build_mutable(r, mu);
+        const Function& df = b.f->diff();
+        const Function* ddf = (b.rows * b.cols == 1 && r.coin(40)) ? &df.diff() : 0;
+        change(r, mu);
+        string fd = dump_fun(*b.f), ddag = dump_fun(df);
+        EMIT("diffnf %s %s %d => 1\n", fd.c_str(), ddag.c_str(), b.nvar);
+        for (int k = 0; k < 3; k++) { Vector p(b.nvar); for (int i = 0; i < b.nvar; i++) p[i] = dyadic(r); EMIT("diffpt %s %s %s => 1\n", fd.c_str(), ddag.c_str(), ptok(p).c_str()); }
+        if (ddf) { string d2 = dump_fun(*ddf); EMIT("diffnf %s %s %d => 1\n", ddag.c_str(), d2.c_str(), b.nvar); }
       } else if (wl == "c12") {
         GenCfg cfg; cfg.differentiable = true; cfg.allow_vec = r.coin(60); cfg.allow_apply = r.coin(40); cfg.max_depth = r.range(1, 4);
         Built b = r.coin(30) ? build_linalg(r) : build(r, cfg, true);
@@ -190,6 +244,23 @@ int main(int argc, char** argv) {
           EMIT("diffnf %s %s %d => 1\n", ddag.c_str(), d2.c_str(), b.nvar);
           for (int k = 0; k < 2; k++) { Vector p(b.nvar); for (int i = 0; i < b.nvar; i++) p[i] = dyadic(r); EMIT("diffpt %s %s %s => 1\n", ddag.c_str(), d2.c_str(), ptok(p).c_str()); }
         }
+      } else if (wl == "c11" && r.coin(10)) {
+        // mutable constants: simplify / copy / convert while they hold special values (0, 1, -1), change them, then compare
+        Mut mu; Built b = build_mutable(r, mu); Function& f = *b.f;
+        vector<pair<string, pair<const ExprNode*, Array<const ExprSymbol>*> > > derived;
+        for (int level = 1; level <= 3; level++) {
+          Array<const ExprSymbol>* a2 = new Array<const ExprSymbol>(f.nb_arg()); for (int i = 0; i < f.nb_arg(); i++) a2->set_ref(i, ExprSymbol::new_(f.arg(i).name, f.arg(i).dim));
+          const ExprNode& cp = ExprCopy().copy(f.args(), *a2, f.expr());
+          derived.push_back(make_pair("simplify" + to_string(level) + "-mutable", make_pair(&cp.simplify(level), a2)));
+        }
+        Function g(f, Function::COPY);
+        Function* comp = (b.rows * b.cols > 1) ? &f[r.below(b.rows * b.cols)] : 0; int ci = 0; if (comp) for (int i = 0; i < b.rows * b.cols; i++) if (&f[i] == comp) ci = i;
+        change(r, mu);
+        string fd = dump_fun(f); cur = fd;
+        auto pts2 = [&](const char* kind, const string& d1, const string& d2) { EMIT("equivnf %s %s %s %d => 1\n", kind, d1.c_str(), d2.c_str(), b.nvar); for (int k = 0; k < 2; k++) { Vector p(b.nvar); for (int i = 0; i < b.nvar; i++) p[i] = dyadic(r); EMIT("equivpt %s %s %s %s => 1\n", kind, d1.c_str(), d2.c_str(), ptok(p).c_str()); } };
+        for (auto& d : derived) pts2(d.first.c_str(), fd, dump_expr(*d.second.first, *d.second.second));
+        pts2("copy-mutable", fd, dump_fun(g));
+        if (comp) { string d2 = dump_fun(*comp); EMIT("equivcompnf %s %s %d %d => 1\n", fd.c_str(), d2.c_str(), ci, b.nvar); }
       } else if (wl == "c11") {
         GenCfg cfg; cfg.differentiable = r.coin(30); cfg.allow_vec = r.coin(70); cfg.allow_apply = false; cfg.max_depth = r.range(1, 4);
         Built b = r.coin(30) ? build_linalg(r) : build(r, cfg, true, true);
